@@ -704,11 +704,34 @@ impl Prop for C17 {
                     listing.sort_by_key(|i| std::cmp::Reverse(g[*i].len()));
                 }
                 cx.nontrivial(crate::rt::prng::strhash(&format!("{:?}{:?}", g, listing)));
-                self.embedded_raw(cx, &g, &listing, "embedded", 3);
+                // one library in three registers only its top cells (those nobody instantiates), or those and a few more: everything else
+                // is reachable through instances alone (a GDSII library always holds all its structures)
+                let registered: Vec<usize> = if cx.rng.chance(1, 3) {
+                    let mut used = vec![false; n];
+                    for d in g.iter() {
+                        for &j in d {
+                            used[j] = true;
+                        }
+                    }
+                    let extra = cx.rng.usize(4);
+                    let mut some: Vec<usize> = listing.iter().copied().filter(|i| !used[*i]).collect();
+                    for _ in 0..extra {
+                        let k = cx.rng.usize(n);
+                        if !some.contains(&k) {
+                            some.push(k);
+                        }
+                    }
+                    cx.count("embedded_dags_with_only_top_cells_registered");
+                    cx.max("max.cells_reachable_from_fewer_registered", (n - some.len()) as u64);
+                    some
+                } else {
+                    listing.clone()
+                };
+                self.embedded_raw(cx, &g, &registered, "embedded", 3);
                 self.embedded_gds(cx, &g, &listing, "embedded");
-                self.embedded_tetris(cx, &g, &listing, "embedded", 7);
+                self.embedded_tetris(cx, &g, &registered, "embedded", 7);
                 if n <= 40 {
-                    self.embedded_tetris_raw(cx, &g, &listing, "embedded");
+                    self.embedded_tetris_raw(cx, &g, &registered, "embedded");
                 }
                 cx.sample(|| json!({"nodes": n, "edges": g.iter().map(|d| d.len()).sum::<usize>(), "listing_head": listing.iter().take(8).collect::<Vec<_>>()}));
             }
